@@ -12,6 +12,10 @@ import Model.Wire
   Cases   {"op":"enc","ty":T,"val":I,"relaxed":b,"hdr":b}          -> res, hex, back
           {"op":"dec","ty":T,"hex":h,"hdr":b,"ext":[suffix hex…]}  -> res, val, re, ext:[{res,val}…]
           {"op":"xrev","tyW":T,"tyR":T',"val":I,"hdr":b}           -> res, hex, val
+          a "dec" case may carry "alts":[hex…] (other complete byte strings decoded with the same type) -> alt:[{res,val}…]
+          {"op":"seq","hdr":false,"steps":[case…]}                 -> res:"seq", steps:[outcome…]
+          (a history of enc / dec cases over several types; the model is a pure function, so every step is
+           computed exactly as if it stood alone)
 -/
 namespace DriverWire
 open Lean DJ Wire
@@ -144,7 +148,7 @@ def decOutcome (t : Ty) (bits : List Bool) (hdr : Bool) (withRe : Bool) : List (
         base ++ [("re", Json.str (bytesToHex (bitsToBytes (enc (if hdr then t else t.inner) v 0))))]
       else base
 
-def handle (j : Json) : R Json := do
+def handle1 (j : Json) : R Json := do
   let op ← str (← field j "op")
   let hdr ← bool (← field j "hdr")
   match op with
@@ -164,7 +168,12 @@ def handle (j : Json) : R Json := do
       let exts ← (← arr (← field j "ext")).mapM fun e => do hexToBytes (← str e)
       let main := decOutcome t (bytesToBits bytes) hdr true
       let extOut := exts.map fun e => Json.mkObj (decOutcome t (bytesToBits (bytes ++ e)) hdr false)
-      pure (Json.mkObj (main ++ [("ext", ofList extOut)]))
+      let altOut ← match fieldOpt j "alts" with
+        | none => pure []
+        | some a => do
+            let alts ← (← arr a).mapM fun e => do hexToBytes (← str e)
+            pure [("alt", ofList (alts.map fun e => Json.mkObj (decOutcome t (bytesToBits e) hdr false)))]
+      pure (Json.mkObj (main ++ [("ext", ofList extOut)] ++ altOut))
   | "xrev" =>
       let tw ← parseTy (← field j "tyW")
       let tr ← parseTy (← field j "tyR")
@@ -176,5 +185,12 @@ def handle (j : Json) : R Json := do
           let out := decOutcome tr (bytesToBits bytes) hdr false
           pure (Json.mkObj ([("hex", Json.str (bytesToHex bytes))] ++ out))
   | o => throw s!"bad op {o}"
+
+def handle (j : Json) : R Json := do
+  let op ← str (← field j "op")
+  if op == "seq" then
+    let outs ← (← arr (← field j "steps")).mapM handle1
+    pure (Json.mkObj [("res", Json.str "seq"), ("steps", ofList outs)])
+  else handle1 j
 
 end DriverWire
